@@ -785,6 +785,10 @@ class BacktestRun:
                         self.note_harness("".join(traceback.format_exception(*ei)))
                     else:
                         self._record_crash(site, ei, where="run")
+                        if "injected" in str(ei[1]) or str(ei[1]) == "scripted":
+                            # an exception thrown from a callback escaped the framework: containment failed
+                            self.crash["owner"] = "C13"
+                            self.crash["where"] = "callback exception not contained"
             _dispatch("end")
         finally:
             CUR = None
